@@ -1,6 +1,8 @@
 #!/bin/bash
 # usage: tools/sweep.sh <tier> <seed...>   — runs every registered check at the given seeds; prints one line per run.
 tier=$1; shift
+# inside `vp run --with-repo` the checks build from the run's own snapshot of the repository
+if [ -n "$VP_RUN_REPO" ] && [ -z "$VERIF_REPO" ]; then export VERIF_REPO=$VP_RUN_REPO; fi
 for s in "$@"; do
   for p in $(python3 -c "import json;print(' '.join(c['property_id'] for c in json.load(open('MANIFEST.json'))['checks']))"); do
     out=$(VERIF_SEED=$s ./check $p $tier 2>&1); rc=$?
